@@ -21,13 +21,11 @@
     * `Close` of a closed listener fails and changes nothing.
   Core Lean only.
 
-  GRANULARITY since fix a1069ea (one critical section around Bind's check + parse + listen + store, around
-  Listen's bind + running=true, and around DoListen's listener read + running=true): the pcs `bindCheck`, `parse`,
-  `listenSys`, `store`, `setRunning` / `readLst`, `setRunning` below are still separate steps of this transition
-  system, i.e. it is FINER than the code: every behaviour of the code is a behaviour of the model (run the steps of
-  one critical section without interleaving), so every theorem over all reachable states / all continuations
-  holds for the code; the interleavings inside those sections that the model additionally has (last example of
-  Props/C14.lean) can no longer happen in the code.
+  Granularity: one step of an API call = one synchronisation point of the code.  Since fix a1069ea the start-up of
+  Bind (running check + parseAddress + listen + store), of Listen (the same + `running = true` + `l := listener`) and
+  of DoListen (listener read + `running = true`) are single critical sections, hence single steps here (pcs
+  `bindCheck`, `readLst`): no state of this transition system sits inside one of them.  A call that was spawned and
+  sits at its first pc has done nothing yet.
 
   Transition table (the code as it is NOW; replaces DESIGN.md Appendix C, which describes the code before the
   repairs).  Shared: running, lst (the field), lsnrs (open?, armed?, address), counter, addrF.  Call k: pc, l, cur,
@@ -35,12 +33,13 @@
 
   | pc          | code                                                    | effect                                                        |
   |-------------|---------------------------------------------------------|---------------------------------------------------------------|
-  | bindCheck   | Bind: lock; read running; unlock                        | running ⇒ ret := already-running, RETURN (no teardown)         |
-  | parse       | parseAddress                                            | error ⇒ RETURN it; else protocol/address written               |
-  | listenSys   | setListener: activation / net listen                    | address held by an open listener ⇒ RETURN error; else new l    |
-  | store       | setListener: lock; listener = l; unlock                 | Bind alone: RETURN nil; Listen: → setRunning                   |
-  | readLst     | DoListen: (defer teardown first) lock; l := listener; unlock | nil ⇒ ret := no-listener, → teardown                     |
-  | setRunning  | lock; running = true; (Listen: l := listener); unlock   | → loopCheck                                                   |
+  | bindCheck   | Bind / Listen, ONE critical section: lock; running? ;   | running ⇒ ret := already-running, RETURN (no teardown, nothing  |
+  |             |   parseAddress; listen; listener = l;                   |   written); parse error ⇒ RETURN it; address held by an open    |
+  |             |   [Listen: running = true; l := listener;] unlock       |   listener ⇒ protocol/address written, RETURN error (Listen:    |
+  |             |                                                         |   before its defer, so NO teardown); else new listener stored;  |
+  |             |                                                         |   Bind: RETURN nil; Listen: running := true, → loopCheck        |
+  | readLst     | DoListen (defer teardown first), ONE critical section:  | nil ⇒ ret := no-listener, → teardown;                          |
+  |             |   lock; l := listener; nil? ; running = true; unlock    |   else l := listener, running := true, → loopCheck             |
   | loopCheck   | isRunning()                                             | false ⇒ ret := nil, → teardown; timeout ≠ 0 ⇒ refresh          |
   | refresh     | refreshTimeout: SetDeadline on the FIELD listener ★     | nil field ⇒ no-op; closed ⇒ ret := err, → teardown; else armed |
   | inAccept    | l.Accept()                                              | conn waiting ∧ open ⇒ gotConn; closed ⇒ errOther; else blocked; |
@@ -69,12 +68,8 @@ inductive Kind where
 
 /-- program counter of an API call: the NEXT synchronisation point it will execute -/
 inductive Pc where
-  | bindCheck    -- Bind: lock; read running; unlock
-  | parse        -- Bind: parseAddress (writes protocol/address)
-  | listenSys    -- setListener: net listen on the address
-  | store        -- setListener: lock; listener = l; unlock
-  | readLst      -- DoListen: lock; l := listener; unlock; nil ⇒ error (deferred teardown runs)
-  | setRunning   -- lock; running = true; (Listen: l := listener); unlock
+  | bindCheck    -- Bind / Listen: the whole critical section  lock; running?; parse; listen; store; [running = true; l := listener]; unlock
+  | readLst      -- DoListen: the whole critical section  lock; l := listener; nil ⇒ error (deferred teardown runs); running = true; unlock
   | loopCheck    -- for s.isRunning()
   | refresh      -- refreshTimeout (only when timeout ≠ 0): SetDeadline on the FIELD listener
   | inAccept     -- l.Accept()
@@ -244,39 +239,35 @@ def teardownShared (w : World) : World :=
     | none => w
   { w1 with lst := none, running := false, addrF := none }
 
+/-- the shared state after a successful `bind` (mutex held throughout): `parseAddress` wrote protocol/address,
+    `listen` created listener number `lsnrs.length`, `setListener` stored it in the field -/
+def bound (w : World) (a : Nat) : World :=
+  { w with addrF := some a, lsnrs := w.lsnrs ++ [{ addr := a }], lst := some w.lsnrs.length }
+
 def stepCall (w : World) (k : Nat) : Option World :=
   match w.calls[k]? with
   | none => none
   | some c =>
     match c.pc with
     | .bindCheck =>
+      -- one critical section (s.mutex held from the running check to the store / to `running = true`)
       if w.running then some (w.setCall k { c with pc := .returned, ret := some .errRunning })
-      else some (w.setCall k { c with pc := .parse })
-    | .parse =>
-      match c.addr with
-      | none => some (w.setCall k { c with pc := .returned, ret := some .errParse })
-      | some a => some (({ w with addrF := some a } : World).setCall k { c with pc := .listenSys })
-    | .listenSys =>
-      match c.addr with
-      | none => none
-      | some a =>
-        if addrInUse w a then some (w.setCall k { c with pc := .returned, ret := some .errListen })
-        else some (({ w with lsnrs := w.lsnrs ++ [{ addr := a }] } : World).setCall k
-                    { c with pc := .store, l := some w.lsnrs.length })
-    | .store =>
-      let w1 := { w with lst := c.l }
-      match c.kind with
-      | .bind => some (w1.setCall k { c with pc := .returned, ret := some .nil })
-      | _ => some (w1.setCall k { c with pc := .setRunning })
+      else
+        match c.addr with
+        | none => some (w.setCall k { c with pc := .returned, ret := some .errParse })
+        | some a =>
+          if addrInUse w a then
+            some (({ w with addrF := some a } : World).setCall k { c with pc := .returned, ret := some .errListen })
+          else
+            match c.kind with
+            | .bind => some ((bound w a).setCall k { c with pc := .returned, l := some w.lsnrs.length, ret := some .nil })
+            | _ => some (({ bound w a with running := true } : World).setCall k
+                          { c with pc := .loopCheck, l := some w.lsnrs.length })
     | .readLst =>
+      -- one critical section: the listener read and `running = true` cannot be separated
       match w.lst with
       | none => some (w.setCall k { c with pc := .teardown, ret := some .errNoListener })
-      | some l => some (w.setCall k { c with pc := .setRunning, l := some l })
-    | .setRunning =>
-      let l := match c.kind with
-        | .listen => w.lst
-        | _ => c.l
-      some (({ w with running := true } : World).setCall k { c with pc := .loopCheck, l := l })
+      | some l => some (({ w with running := true } : World).setCall k { c with pc := .loopCheck, l := some l })
     | .loopCheck =>
       if w.running then some (w.setCall k { c with pc := if c.tmo then .refresh else .inAccept })
       else some (w.setCall k { c with pc := .teardown, ret := some .nil })
